@@ -22,6 +22,7 @@ props_for() {
       crl/crlstore/*) props="$props C18 C09 C08 C11 C12 C16 C10 C01 C20 C17";;
       crl/crlloader/*) props="$props C20 C10 C15 C17";;
       core/hashing/hashes.go) props="$props C18 C11 C01";;
+      core/crlstructures.go) props="$props C18 C01 C12";;
       crl/crlreader/*|core/asn1parser/*|core/hashing/*|core/signatureverify/*|core/pemreader/*) props="$props C06 C07 C04 C01 C08 C11 C17";;
       ocsp/*) props="$props C02 C05 C14 C13";;
       core/certificatechains.go) props="$props C04 C02 C05 C07";;
